@@ -145,10 +145,12 @@ impl GraphEngine {
                 };
 
                 // Find common neighbors (complete the triangle)
-                // Require w > v to ensure each triangle is counted exactly once
+                // Require w after v in the same (degree, id) order that oriented the
+                // edge, so that each triangle is counted exactly once
                 for &w in u_neighbors {
-                    if w > v && v_neighbors.contains(&w) {
-                        // Found triangle (u, v, w) where u < v < w
+                    let w_deg = degrees.get(&w).copied().unwrap_or(0);
+                    if (w_deg, w) > (v_deg, v) && v_neighbors.contains(&w) {
+                        // Found triangle (u, v, w) where u < v < w in that order
                         triangle_count += 1;
                         *node_triangles.entry(u).or_insert(0) += 1;
                         *node_triangles.entry(v).or_insert(0) += 1;
